@@ -35,7 +35,7 @@ def to_fv(ex, v, node):
         if isinstance(probe, VMap) and set(probe.d) == {"id"}:
             arr = fresh("ids", ArraySort(INT, Str))
             ex.assume(FA([INT], lambda i: Implies(And(0 <= i, i < v.n), arr[i] == to_term(v.at(i).d["id"], "str")),
-                         pats=lambda i: [arr[i]]))
+                         pats=lambda i: [arr[i], to_term(v.at(i).d["id"], "str")]))
             return H.FV.fids(v.n, arr)
         if v.n.eq(IntVal(0)):
             return H.FV.fids(IntVal(0), K(INT, EMPTY))
@@ -198,7 +198,7 @@ class ListenerCallbacks:
             if ident(a, b):
                 continue
             ex.oblige("registers.%s_f.effect.%s@%d" % (which, name, node.lineno), comp_eq(name, a, b),
-                      ["C02", "C01"], node.lineno, "callback")
+                      ["C01", "C02", "C08", "C13", "C17"], node.lineno, "callback")
         # obligations generated while executing the closure keep their local facts
         for o in ex.p.obls[nobl:]:
             o.extra_hyps = list(ex.p.pc[npc:o.nhyps]) + o.extra_hyps
